@@ -119,6 +119,13 @@ def read_in(node: Node) -> Dict[str, ast.AST]:
     return out
 
 
+import re as _re
+# calls that only look: they cannot change the outcome of a remembered test (names of the repository's query helpers and of builtins)
+_PURE = _re.compile(r"^(is_[a-z_]+|has_[a-z_]+|needs_sync|paths_match|paths_differ|hash_conflict|path_conflict|isinstance|hasattr|getattr|len|str|int|bool|repr|"
+                    r"debug|info|warning|error|exception|log|startswith|endswith|lower|upper|dirname|basename|join|split|normalize_path|normalize_path_separators|"
+                    r"is_subpath|is_subpath_of_root|translate|lookup_oid|lookup_path|get|items|values|keys|copy|time|monotonic|getLogger|isEnabledFor)$")
+
+
 def _stored_names(node: Node) -> Set[str]:
     """Names / attribute roots a node may change (used to invalidate remembered test outcomes)."""
     out = set(assigned_in(node))
@@ -130,7 +137,9 @@ def _stored_names(node: Node) -> Set[str]:
             if isinstance(r, ast.Name):
                 out.add(r.id)
         if isinstance(x, ast.Call):
-            out.add("<call>")
+            nm = x.func.attr if isinstance(x.func, ast.Attribute) else (x.func.id if isinstance(x.func, ast.Name) else "")
+            if not _PURE.match(nm):
+                out.add("<call>")
     return out
 
 
